@@ -502,7 +502,7 @@ func ruleViewBaseSeparator(c *Ctx, rule string, iface *types.Interface, impls []
 						continue
 					}
 					for i := 0; i < st.NumFields(); i++ {
-						if strings.HasSuffix(l.Origin.Name, "."+T.Obj().Name()+"."+st.Field(i).Name()) && isStringy(st.Field(i).Type()) {
+						if strings.HasSuffix(l.Origin.Name, "."+T.Obj().Name()+"."+refFieldName(lastSeg(typeString(T)), st.Field(i).Name())) && isStringy(st.Field(i).Type()) {
 							base[i] = true
 						}
 					}
